@@ -8,8 +8,10 @@ extra = sys.argv[4:]
 env = dict(os.environ, GOFLAGS="-mod=mod", GOPROXY="off", GOSUMDB="off", GOTOOLCHAIN="local")
 wt = tempfile.mkdtemp(prefix="seedwt-", dir="/tmp")
 os.rmdir(wt)
-def sh(cmd, cwd=None, timeout=1800):
-    p = subprocess.run(cmd, cwd=cwd, env=env, capture_output=True, text=True, timeout=timeout)
+# DEMO_GOARCH=386 runs only the demonstration (not the existing suite) for that GOARCH
+demoenv = dict(env, GOARCH=os.environ["DEMO_GOARCH"]) if os.environ.get("DEMO_GOARCH") else env
+def sh(cmd, cwd=None, timeout=1800, e=None):
+    p = subprocess.run(cmd, cwd=cwd, env=e or env, capture_output=True, text=True, timeout=timeout)
     return p.returncode, (p.stdout + p.stderr)
 rc, out = sh(["git", "-C", "/repo", "worktree", "add", "-q", "--detach", wt, "HEAD"])
 assert rc == 0, out
@@ -32,7 +34,7 @@ try:
     for d in dirs:
         dst = os.path.join(wt, d, "seeded_demo_test.go")
         shutil.copy(os.path.join(src, "demo_test.go"), dst)
-        rc0, o0 = sh(["go", "test", "-vet=off", "-count=1"] + extra + ["./" + d], cwd=wt)
+        rc0, o0 = sh(["go", "test", "-vet=off", "-count=1"] + extra + ["./" + d], cwd=wt, e=demoenv)
         ran.append(f"unchanged: go test {' '.join(extra)} ./{d} (with demo) -> rc={rc0}")
         os.remove(dst)
         if rc0 != 0:
@@ -43,7 +45,7 @@ try:
         rct, ot = sh(["go", "test", "-vet=off", "-count=1", "./..."], cwd=wt)
         ran.append(f"patched: go build ./... -> rc={rcb}; go test ./... (existing suite) -> rc={rct}")
         shutil.copy(os.path.join(src, "demo_test.go"), dst)
-        rc1, o1 = sh(["go", "test", "-vet=off", "-count=1"] + extra + ["./" + d], cwd=wt)
+        rc1, o1 = sh(["go", "test", "-vet=off", "-count=1"] + extra + ["./" + d], cwd=wt, e=demoenv)
         ran.append(f"patched: go test {' '.join(extra)} ./{d} (with demo) -> rc={rc1}")
         os.remove(dst)
         sh(["git", "checkout", "--", "."], cwd=wt)
@@ -61,7 +63,7 @@ try:
     shutil.copy(os.path.join(src, "patch.diff"), os.path.join(out, "patch.diff"))
     shutil.copy(os.path.join(src, "demo_test.go"), os.path.join(out, "demo_test.go"))
     readme = open(os.path.join(src, "README.txt")).read()
-    json.dump({"id": sid, "breaks_property": prop, "demo_package_dir": pkgdir, "demo_extra_go_test_args": extra,
+    json.dump({"id": sid, "breaks_property": prop, "demo_package_dir": pkgdir, "demo_extra_go_test_args": extra, "demo_goarch": os.environ.get("DEMO_GOARCH", ""),
                "needs_to_manifest": readme[:1500], "confirmed_by": ran, "detected_by": []},
               open(os.path.join(out, "meta.json"), "w"), indent=1)
     print("CONFIRMED", sid, ran)
